@@ -84,7 +84,7 @@ def confirm(src, sid, pid):
                 m = re.search(r"(demo\w*\.go|demo/main\.go)\s+(?:to|at|->|as)\s+(\S+\.go)", l)
                 if m and not places:
                     places.append([m.group(1), m.group(2)])
-                if re.match(r"(\(cd \S+ && )?(go (test|run) |rm -rf app/)", l) and l not in cmds:
+                if re.match(r"(\(cd \S+ && )?((\w+=\S+ )*go (test|run) |rm -rf app/)", l) and l not in cmds:
                     cmds.append(l)
         if not places or not cmds:
             print("RUN.txt must contain `PLACE <file> <relpath>` and `CMD <shell command>` lines"); return 1
@@ -111,6 +111,28 @@ def confirm(src, sid, pid):
         rc, out = sh(["python3", os.path.join(V, "tools", "baseline.py"), "--repo", wt], timeout=3600)
         report["baseline"] = out.strip().splitlines()[:6]
         report["baseline_ok"] = rc == 0
+        if rc != 0:
+            # differential: a stable test that fails with the patch counts only if it passes WITHOUT the patch
+            # under the same machine load (timing-sensitive tests fail on a busy machine either way)
+            import re as _re
+            failing = _re.findall(r"NOT PASSING: (\S+)::(\S+)", out)
+            sh(["git", "checkout", "--", "."], cwd=wt)
+            really = []
+            for pkg, name in failing:
+                top = name.split("/")[0]
+                if pkg.startswith("github.com/hydraide/hydraide/sdk/go/hydraidego/v3"):
+                    d2, rel = wt + "/sdk/go/hydraidego", "." + pkg[len("github.com/hydraide/hydraide/sdk/go/hydraidego/v3"):]
+                else:
+                    d2, rel = wt, "." + pkg[len("github.com/hydraide/hydraide"):]
+                r0, _ = sh(["go", "test", "-vet=off", "-count=1", "-run", "^%s$" % top, rel], cwd=d2, env=dict(env, GOFLAGS="-mod=mod"))
+                sh(["git", "apply", os.path.join(src, "patch.diff")], cwd=wt)
+                r1, _ = sh(["go", "test", "-vet=off", "-count=1", "-run", "^%s$" % top, rel], cwd=d2, env=dict(env, GOFLAGS="-mod=mod"))
+                sh(["git", "checkout", "--", "."], cwd=wt)
+                if r0 == 0 and r1 != 0:
+                    really.append(pkg + "::" + name)
+            sh(["git", "apply", os.path.join(src, "patch.diff")], cwd=wt)
+            report["baseline_failures_attributable_to_patch"] = really
+            report["baseline_ok"] = not really
         place()
         rc1, out1 = sh(" && ".join(cmds), cwd=wt, env=env, timeout=1800)
         report["demo_with_patch_rc"] = rc1
